@@ -23,7 +23,7 @@ type vpSTPoint struct{ X, Y int64 }
 type vpSTShape interface{ Area() int64 }
 type vpSTRect struct{ W, H int64 }
 
-func (r vpSTRect) Area() int64   { return r.W * r.H }
+func (r vpSTRect) Area() int64    { return r.W * r.H }
 func (r *vpSTRect) Scale(k int64) { r.W *= k; r.H *= k }
 
 func vpSTDefer(x int64) (r int64) {
@@ -101,7 +101,7 @@ func vpH_selftest() {
 		arr2 := arr
 		arr2[0] = 9
 		sl := arr[:2]
-		sl2 := append(sl, 42) // writes arr[2]
+		sl2 := append(sl, 42)  // writes arr[2]
 		sl3 := append(sl2, 43) // reallocates
 		sl3[0] = 77
 		vpNoteInt64("p.X", p.X)
